@@ -275,6 +275,67 @@ func c02ExecTime(c *vf.Ctx, d *vf.Driver, cs c02TimeCase) {
 		fail("property", "c02-jwt-time-roundtrip", "a token produced by jwt.Sign does not parse", fmt.Sprint(what, perr, " payload ", string(pb)), "ok")
 		return
 	}
+	// (d) the ASSEMBLED model (signFull >>= parseFull: header/base64/signature of C02 with the real
+	// claims codec and validation of C10/C04): same token bytes, same claims.  Deterministic
+	// algorithms only (the token must be reproduced bit for bit).
+	if a.Family == "hs" || a.Family == "eddsa" {
+		zero := new(big.Int).Mul(big.NewInt(-62135596800), big.NewInt(1_000_000_000))
+		inst := func(i *c02Instant) vf.Wire {
+			if i == nil {
+				return vf.BigInt(zero)
+			}
+			return vf.BigInt(i.nanos())
+		}
+		cw := vf.Obj(vf.KV{K: "iss", V: vf.Str("c02-time")}, vf.KV{K: "sub", V: vf.Str("")}, vf.KV{K: "aud", V: vf.Arr()},
+			vf.KV{K: "exp", V: inst(cs.Exp)}, vf.KV{K: "nbf", V: inst(cs.Nbf)}, vf.KV{K: "iat", V: inst(cs.Iat)},
+			vf.KV{K: "jti", V: vf.Str("")}, vf.KV{K: "raw", V: vf.Null()})
+		hw := vf.Obj(vf.KV{K: "alg", V: vf.Str(cs.Alg)}, vf.KV{K: "typ", V: vf.Str("JWT")}, vf.KV{K: "raw", V: vf.Obj()},
+			vf.KV{K: "crit", V: vf.Arr()}, vf.KV{K: "nb64", V: vf.Bool(false)})
+		nowNs := new(big.Int).Add(new(big.Int).Mul(big.NewInt(now.Unix()), big.NewInt(1_000_000_000)), big.NewInt(int64(now.Nanosecond())))
+		handle := c01Handle(cs.Alg, false, c01KeyRef{Idx: k.Idx, Variant: "priv"})
+		oracle := WithOverrides(map[string]func([]vf.Wire) vf.Wire{
+			"now":            func([]vf.Wire) vf.Wire { return vf.BigInt(nowNs) },
+			"verifyIssuer":   func(a []vf.Wire) vf.Wire { return vf.Bool(argN(a, 0).Str == "c02-time") },
+			"verifyAudience": func([]vf.Wire) vf.Wire { return vf.Bool(true) },
+			"jwt.findKey":    func([]vf.Wire) vf.Wire { return handle },
+			// JSON law of jwt_sign_parse_time_claims: decoding the marshalled claims object gives an
+			// object with the same members
+			"json.marshal": func(a []vf.Wire) vf.Wire {
+				out, err := json.Marshal(argN(a, 0).ToJSON())
+				if err != nil {
+					return vf.None()
+				}
+				if m, ok := DecodeJSONMap(out); !ok || !vf.FromJSON(m).Equal(vf.FromJSON(argN(a, 0).ToJSON())) {
+					fail("correspondence", "c02-oracle-law", "JSON law fails on the claims object", string(out), argN(a, 0).Render())
+				}
+				c.Count("law:json-claims")
+				return vf.Bytes(out)
+			},
+		})
+		cfgW := vf.Obj(vf.KV{K: "configured", V: vf.Bool(true)}, vf.KV{K: "allowAny", V: vf.Bool(false)}, vf.KV{K: "allowed", V: vf.Arr(vf.Str(cs.Alg))})
+		res, derr := d.Call("c02.jwt.full", []vf.Wire{hw, cw, handle, cfgW}, oracle)
+		c.TraceValidated()
+		if derr != nil {
+			fail("correspondence", "c02-driver", derr.Error(), "", "")
+		} else if mo := vf.AsOutcome(res); mo.Tag != "ok" || len(mo.Val.Arr) != 3 {
+			fail("correspondence", "c02-assembled-jwt", "the assembled model does not accept the round trip", mo.Tag+" "+mo.Cls, "ok")
+		} else {
+			if string(mo.Val.Arr[0].Bytes) != string(data) {
+				fail("correspondence", "c02-assembled-jwt", "assembled model and implementation produce different tokens", string(data), string(mo.Val.Arr[0].Bytes))
+			}
+			for _, n := range all {
+				v, _ := mo.Val.Arr[2].Get(n.name)
+				want := zero
+				if n.in != nil {
+					want = n.in.nanos()
+				}
+				if v.Int == nil || v.Int.Cmp(want) != 0 {
+					fail("correspondence", "c02-assembled-jwt", "assembled model: "+n.name+" differs after the round trip", v.Render(), want.String())
+				}
+			}
+			c.Count("jwt-assembled-model-ok")
+		}
+	}
 	for _, n := range all {
 		var got time.Time
 		switch n.name {
